@@ -458,6 +458,18 @@ fn gen_pops(r: &mut Rng, files: &[(u64, u64)], n: usize, with_overwrite: bool) -
             7 => r.below(300),
             _ => r.below(3 * ps),
         };
+        if r.chance(1, 12) {
+            // extreme requests: page ids that do not fit 32 bits, offset + length beyond u64, "read everything"
+            let (o, l) = match r.below(5) {
+                0 => ((1u64 << 44) + r.below(5000), 1 + r.below(5000)),
+                1 => (u64::MAX - r.below(3), 1 + r.below(10)),
+                2 => (r.below(ps), (1u64 << 44) + r.below(10)),
+                3 => (1u64 << 63, r.below(100)),
+                _ => (off, 64 * 1024 * 1024),
+            };
+            ops.push((if r.chance(1, 4) { 5 } else { 0 }, fi, o, l));
+            continue;
+        }
         let c = r.below(100);
         let op = if c < 55 { 0 } else if c < 62 { 4 } else if c < 68 { 5 } else if c < 78 { 1 } else if c < 86 { 2 } else if c < 93 { 3 } else if with_overwrite { 6 } else { 0 };
         if op == 2 { ops.push((2, fi, r.below(npages + 1), 0)); } else { ops.push((op as u8, fi, off, len)); }
